@@ -414,6 +414,78 @@ def unwrap(v):
 # ------------------------------------------------------------------------------------------
 
 
+_PYLIB = [None]
+
+
+class _NearMissFinder:
+    """In-memory packages for near-miss names (appended to sys.meta_path: never shadows anything installed)."""
+
+    def __init__(self, names):
+        self.names = set()
+        for n in names:
+            parts = n.split(".")
+            self.names |= {".".join(parts[: i + 1]) for i in range(len(parts))}
+
+    def find_spec(self, fullname, path=None, target=None):
+        if fullname in self.names:
+            from importlib.machinery import ModuleSpec
+
+            return ModuleSpec(fullname, self, is_package=True)
+        return None
+
+    def create_module(self, spec):
+        return None
+
+    def exec_module(self, module):
+        module.ZZ_NEAR_MISS = True
+        module.zz_attr = "zz_attr"
+
+
+def create_near_miss_modules():
+    """Near-miss names that are not installed become real, harmless, importable packages: a wrongly permitted import
+    then really imports something (binding + sys.modules entry) instead of ending in the same ModuleNotFoundError as
+    a rejection."""
+    if _PYLIB[0] is not None:
+        return
+    import importlib.util
+
+    wanted = []
+    for a in sorted(allowed()):
+        for n in sorted(near_misses(a)):
+            parts = n.split(".")
+            try:
+                exists = parts[0] in sys.modules or importlib.util.find_spec(parts[0]) is not None
+            except BaseException:  # noqa: BLE001
+                exists = True
+            prefixes = {".".join(parts[: i + 1]) for i in range(len(parts))}
+            if not exists and not (prefixes & set(allowed())):  # never create an allow-listed module
+                wanted.append(n)
+    finder = _NearMissFinder(wanted)
+    sys.meta_path.append(finder)
+    _PYLIB[0] = finder
+    _PYLIB.append(len(wanted))
+    importlib.invalidate_caches()
+
+
+def remove_near_miss_modules():
+    finder = _PYLIB[0]
+    if finder is None:
+        return
+    for k in [k for k, m in list(sys.modules.items()) if getattr(m, "ZZ_NEAR_MISS", False) is True]:
+        sys.modules.pop(k, None)
+    if finder in sys.meta_path:
+        sys.meta_path.remove(finder)
+    _PYLIB[0] = None
+    del _PYLIB[1:]
+
+
+def forget_near_miss_modules(names):
+    for k in names:
+        m = sys.modules.get(k)
+        if m is not None and m.__dict__.get("ZZ_NEAR_MISS") is True:
+            sys.modules.pop(k, None)
+
+
 class Env:
     def __init__(self):
         self.key = None
@@ -427,7 +499,8 @@ class Env:
         key = (bool(allow_all), cfg)
         if self.key == key:
             return
-        self.close()
+        self.close(final=False)
+        create_near_miss_modules()
         self.loop = asyncio.new_event_loop()
         asyncio.set_event_loop(self.loop)
         config_dir = None
@@ -469,7 +542,7 @@ class Env:
 
         GlobalContextMgr.contexts.clear()
 
-    def close(self):
+    def close(self, final=True):
         try:
             if self.cm is not None and self.loop is not None:
                 try:
@@ -489,6 +562,8 @@ class Env:
                 self.clear_contexts()
             except BaseException:  # noqa: BLE001
                 pass
+            if final:
+                remove_near_miss_modules()
 
     def run(self, coro):
         return self.loop.run_until_complete(coro)
@@ -529,12 +604,15 @@ async def run_script(src, app=False, timeout=10.0):
             with l1.time_limit(timeout):
                 await ast_ctx.eval()
         except BaseException as e:  # noqa: BLE001
-            if isinstance(e, (KeyboardInterrupt, SystemExit, asyncio.CancelledError, l1.CaseTimeout)):
+            # SystemExit is kept as an observation: a wrongly permitted import may run a module that exits
+            if isinstance(e, (KeyboardInterrupt, asyncio.CancelledError, l1.CaseTimeout)):
                 raise
             exc = e
     finally:
         sys.stdout = old_stdout
     new_mods = sorted(set(sys.modules) - before) if len(sys.modules) != len(before) else []
+    if new_mods:
+        forget_near_miss_modules(new_mods)
     return gsym, exc, name, buf.getvalue(), new_mods
 
 
@@ -968,6 +1046,7 @@ class C17(ModelCheck):
         "CPython's result of the same single import statement in an empty namespace is the reference for permitted imports",
         "pyscript modules are recognised by a marker variable written into the files of a temporary configuration directory; loaded module contexts are dropped before every shadowing case",
         "hass.async_add_executor_job runs its job inline on the event-loop thread (Home Assistant's executor is trusted, not under test)",
+        "near-miss names that are not installed are importable as harmless in-memory packages (finder appended to sys.meta_path), so permitting one is observable",
         "the `as` form of a from-import below 'stubs' follows the code (ModuleNotFoundError), the statement only covers the plain form",
         "shapes behind KNOWN_FINDING_* constants are masked (dotted plain import key, __all__ of star imports, getattr-style from-import, relative fallback, native lambda/@pyscript_compile bodies, __builtins__ global after a native definition)",
     ]
@@ -1106,6 +1185,7 @@ class C17(ModelCheck):
             if shard_i == 0:
                 for k, v in self._counts.items():
                     res.count("enum:" + k, v)
+                res.count("enum:near_miss_modules_created", _PYLIB[1] if len(_PYLIB) > 1 else 0)
         finally:
             self._in_shard = False
             ENV.close()
